@@ -15,6 +15,8 @@ Spec = {"nodes": [node, ...]}; node index = creation order.  Node kinds:
   unpack {"k":"unpack","of":ARG,"n":int,"scope":[..]}      (plan.unpack; elements are {"u":i,"j":j})
   gather {"k":"gather","v":ARG,"scope":[..]}              (explicit plan.gather)
 ARG  = {"c":CONST} | {"n":i} | {"u":i,"j":j} | {"L":[ARG]} | {"T":[ARG]} | {"S":[ARG]}
+     (an L / S / D ARG may carry "sh":slot : the SAME mutable python object is passed at every use of the
+      slot, mutated in place to the contents given at that use -- build histories, C02)
      | {"D":[[ARG,ARG]]} | {"O":kind,"items":[ARG]}        (opaque: subclass / custom object)
 REF  = {"n":i} | {"u":i,"j":j}
 BEH  = {"t":"ok"} | {"t":"ret","v":CONST} | {"t":"seq","as":"list|tuple|gen"}
@@ -231,7 +233,7 @@ class Gen:
     """Incremental spec construction inside one @st.composite draw."""
 
     def __init__(self, draw, registry=False, failures=False, opaque=True, flaky=False,
-                 late=False, xdeps=False, alias=False, lits=1):
+                 late=False, xdeps=False, alias=False, lits=1, shared=False):
         self.draw = draw
         self.nodes = []
         self.registry = registry
@@ -244,8 +246,10 @@ class Gen:
         self.late = late
         self.xdeps = xdeps
         self.alias = alias
+        self.shared = shared
         self.lits = lits  # weight of literal nodes / literal chains in add_any
         self.lit_refs = []
+        self.cur_slots = set()
 
     # -- argument structures
     def ref(self, hashable=False):
@@ -271,7 +275,10 @@ class Gen:
             return self.ref(hashable)
         if k in ("L", "T"):
             n = d(st.integers(0, 3))
-            return {k: [self.arg(depth + 1, hashable) for _ in range(n)]}
+            out = {k: [self.arg(depth + 1, hashable) for _ in range(n)]}
+            if k == "L" and self.shared and d(st.integers(0, 2)) == 0:
+                self._share(out, "L")
+            return out
         if k == "S":
             n = d(st.integers(0, 3))
             items = []
@@ -279,7 +286,10 @@ class Gen:
                 x = self.arg(depth + 1, True)
                 if x not in items:  # a set literal holds equal build-time objects once
                     items.append(x)
-            return {"S": items}
+            out = {"S": items}
+            if self.shared and d(st.integers(0, 3)) == 0:
+                self._share(out, "S")
+            return out
         if k == "D":
             n = d(st.integers(0, 3))
             pairs, seen = [], []
@@ -289,11 +299,22 @@ class Gen:
                     continue
                 seen.append(key)
                 pairs.append([key, self.arg(depth + 1)])
-            return {"D": pairs}
+            out = {"D": pairs}
+            if self.shared and d(st.integers(0, 2)) == 0:
+                self._share(out, "D")
+            return out
         kind = d(st.sampled_from(OPAQUE_KINDS))
         n = d(st.integers(0, 2))
         need_hash = kind in ("myset", "frozenset")
         return {"O": kind, "items": [self.arg(depth + 1, need_hash) for _ in range(n)]}
+
+    def _share(self, out, tag):
+        # one python object per slot; a slot is used at most once per API call (all arguments of one
+        # plan.call are evaluated before uberjob sees any of them)
+        slot = "%s%d" % (tag, self.draw(st.integers(0, 1)))
+        if slot not in self.cur_slots:
+            self.cur_slots.add(slot)
+            out["sh"] = slot
 
     def scope(self):
         return self.draw(st.lists(SCOPE_VALUES, max_size=2))
@@ -342,6 +363,7 @@ class Gen:
 
     def add_call(self, stored=None, side=None, min_args=0):
         d = self.draw
+        self.cur_slots = set()
         nargs = d(st.integers(min_args, 3))
         args = [self.arg(want_node=(i == 0)) for i in range(nargs)]
         nkw = d(st.integers(0, 2)) if d(st.booleans()) else 0
@@ -409,6 +431,37 @@ class Gen:
                 self.nodes[c]["deps"].append({"n": last})
         return last
 
+    def add_accum(self):
+        """The accumulator idiom: one mutable list / dict / set object grows between successive calls
+        that all take it as an argument (parts.append(x); plan.call(total, parts))."""
+        d = self.draw
+        tag = d(st.sampled_from(["L", "L", "D", "S"]))
+        slot = "%s%d" % (tag, d(st.integers(0, 1)))
+        scope = self.scope()
+        items = []
+        last = None
+        for _ in range(d(st.integers(2, 3))):
+            self.cur_slots = {slot}
+            items = [x for x in items if not _uses_slots(x)]  # nested shared objects: fresh per call
+            for _ in range(d(st.integers(0, 2))):
+                if tag == "D":
+                    key = self.arg(1, True)
+                    if key not in [k for k, _ in items]:
+                        items.append([key, self.arg(1, want_node=True)])
+                else:
+                    x = self.arg(1, tag == "S", want_node=True)
+                    if tag != "S" or x not in items:
+                        items.append(x)
+            if d(st.integers(0, 5)) == 0 and items:
+                items.pop(d(st.integers(0, len(items) - 1)))
+            a = {tag: [list(p) for p in items] if tag == "D" else list(items), "sh": slot}
+            pos = d(st.integers(0, 1))
+            args = [self.arg()] * pos + [a]
+            node = {"k": "call", "args": args, "kwargs": [], "deps": [], "scope": list(scope) if d(st.integers(0, 4)) else self.scope(),
+                    "stored": False, "beh": self.beh(), "side": None}
+            last = self.add(node, hashable=True)
+        return last
+
     def add_src(self):
         d = self.draw
         if self.alias:
@@ -442,6 +495,7 @@ class Gen:
 
     def add_unpack(self):
         d = self.draw
+        self.cur_slots = set()
         n = d(st.integers(0, 3))
         mode = d(st.sampled_from(["L", "T", "seq"]))
         if mode == "seq":
@@ -459,6 +513,7 @@ class Gen:
         return self.add({"k": "unpack", "of": of, "n": n, "scope": self.scope()}, hashable=False)
 
     def add_gather(self):
+        self.cur_slots = set()
         v = self.arg()
         node = {"k": "gather", "v": v, "scope": self.scope()}
         if "n" in v or "u" in v:
@@ -472,6 +527,8 @@ class Gen:
         kinds = ["call"] * 6 + ["lit"] * self.lits + ["unpack", "gather"]
         if self.lits > 1:
             kinds += ["litchain", "barrier"]
+        if self.shared:
+            kinds += ["accum"]
         if self.registry:
             kinds += ["src", "src"]
         k = d(st.sampled_from(kinds))
@@ -479,6 +536,7 @@ class Gen:
 
     def output(self):
         d = self.draw
+        self.cur_slots = set()
         roll = d(st.sampled_from(range(10)))
         if roll == 0 or not self.refs:
             return None if roll == 0 or d(st.booleans()) else {"c": d(CONSTS)}
@@ -493,8 +551,8 @@ class Gen:
 
 @st.composite
 def plan_specs(draw, max_nodes=8, registry=False, failures=0, opaque=True, flaky=False,
-               min_nodes=1, lits=1):
-    g = Gen(draw, registry=registry, failures=failures, opaque=opaque, flaky=flaky, lits=lits)
+               min_nodes=1, lits=1, shared=False):
+    g = Gen(draw, registry=registry, failures=failures, opaque=opaque, flaky=flaky, lits=lits, shared=shared)
     n = draw(st.integers(min_nodes, max_nodes))
     while len(g.nodes) < n:
         g.add_any()
@@ -517,6 +575,16 @@ def run_configs(draw, nodes=8, max_errors=False, retry=False):
 
 # ---------------------------------------------------------------------------
 # inspection helpers over specs
+
+
+def _uses_slots(a):
+    if isinstance(a, list):
+        return any(_uses_slots(x) for x in a)
+    if not isinstance(a, dict):
+        return False
+    if "sh" in a:
+        return True
+    return any(_uses_slots(v) for k, v in a.items() if k in ("L", "T", "S", "D", "items"))
 
 
 def arg_refs(a, out=None, through_opaque=False):
